@@ -117,10 +117,13 @@ impl World {
                 self.stats.inc("probe_multi_reset_message");
             }
             for id in &reset_members {
-                if let Some(b) = before.get(id) {
-                    if !b.entries.is_empty() {
-                        self.stats.inc("probe_reset_of_nonempty_copy");
+                match before.get(id) {
+                    Some(b) => {
+                        if !b.entries.is_empty() {
+                            self.stats.inc("probe_reset_of_nonempty_copy");
+                        }
                     }
+                    None => self.stats.inc("probe_reset_of_new_member"),
                 }
             }
         }
